@@ -366,9 +366,14 @@ impl WorldB {
             } else {
                 "stale-or-foreign"
             };
-            if reused && (kind.is_some() || snap_before != snap_after) {
-                // the known cross-session replay was accepted: the implementation's window has moved, the model follows and
-                // stops judging completeness on this session
+            let reused_in_window = reused
+                && sess_id
+                    .and_then(|id| self.sessions.get(&id))
+                    .map(|sx| !sx.rx_seen.contains(&seq) && sx.rx_highest.map(|h| seq.checked_add(256).map(|x| x > h).unwrap_or(true)).unwrap_or(true))
+                    .unwrap_or(false);
+            if reused && (kind.is_some() || snap_before != snap_after || reused_in_window) {
+                // the known cross-session replay is accepted (visibly or, for a keep-alive without a running timeout, silently):
+                // the implementation's window has moved, the model follows and stops judging completeness on this session
                 if let Some(id) = sess_id {
                     if let Some(sx) = self.sessions.get_mut(&id) {
                         sx.rx_seen.insert(seq);
@@ -494,6 +499,17 @@ impl WorldB {
                         let key = self.tokens[t].token.server_to_client_key;
                         let mut b = self.ledger[ix].bytes.clone();
                         if let Ok((_, Packet::Challenge { token_sequence, token_data })) = Packet::decode(&mut b, self.tokens[t].token.protocol_id, Some(&key), None) {
+                            // C17: the challenge token inside is sealed under the server's challenge key with nonce = token_sequence;
+                            // one server incarnation never seals two different challenge tokens under the same sequence
+                            obs.count("oracle.C17.challenge_token_nonce");
+                            if let Some(prev) = self.challenges_seen.iter().find(|c| c.3 == inc && c.0 == token_sequence && c.1[..] != token_data[..]) {
+                                obs.violate(
+                                    "C17",
+                                    "nonce-reused-under-one-key",
+                                    "challenge-token/challenge-key",
+                                    format!("challenge token sequence {} sealed for client id {} and again, with other content, for client id {}", token_sequence, prev.2, id),
+                                );
+                            }
                             self.challenges_seen.push((token_sequence, token_data.to_vec(), id, inc));
                         }
                         if self.tokens[t].first_addr.is_none() {
@@ -775,7 +791,16 @@ impl WorldB {
             let s = &mut self.slots[slot];
             s.lenient_ms = s.clock_ms;
         }
-        if self.slots[slot].rx_taint && surfaced.is_some() {
+        let tainted_before = self.slots[slot].rx_taint;
+        if earlier_session && protected && in_window {
+            // the known cross-session replay is accepted by the client (visibly or silently): its window has moved, the model
+            // follows and stops judging this client's receive side (judged above for this datagram itself)
+            let s = &mut self.slots[slot];
+            s.rx_seen.insert(seq);
+            s.rx_highest = Some(s.rx_highest.map(|h| h.max(seq)).unwrap_or(seq));
+            s.rx_taint = true;
+        }
+        if tainted_before && surfaced.is_some() {
             obs.count("oracle.C04.skipped_self_inflicted");
         } else if let Some(p) = surfaced {
             obs.count("oracle.C04.surfaced");
